@@ -10,6 +10,12 @@ impl Error {
 pub struct IoError { _p: u8 }
 #[verifier::external_body]
 pub struct KString { _p: u8 }
+impl KString { pub uninterp spec fn view(&self) -> Seq<char>; }
+impl core::ops::Deref for KString {
+    type Target = str;
+    #[verifier::external_body]
+    fn deref(&self) -> (r: &str) ensures r@ == self.view() { unimplemented!() }
+}
 impl From<String> for KString {
     #[verifier::external_body]
     fn from(s: String) -> (r: KString) { unimplemented!() }
